@@ -75,6 +75,26 @@ impl ParseAttribute for OuterFrom {
     }
 }
 
+impl OuterFrom {
+    /// `FromField`, `FromVariant` and `FromTypeParam` cannot delegate to a wrapped type the way
+    /// `FromDeriveInput` and `FromAttributes` do: a newtype body is one they cannot represent.
+    pub(in crate::options) fn reject_newtype(&self, errors: &mut crate::error::Accumulator) {
+        use crate::util::{Shape, ShapeSet};
+
+        if let Data::Struct(ref data) = self.container.data {
+            if data.is_newtype() {
+                errors.push(
+                    Error::unsupported_shape_with_expected(
+                        Shape::Newtype.description(),
+                        &ShapeSet::new(vec![Shape::Named, Shape::Unit]),
+                    )
+                    .with_span(&self.container.ident),
+                );
+            }
+        }
+    }
+}
+
 impl ParseData for OuterFrom {
     fn parse_field(&mut self, field: &Field) -> Result<()> {
         match field.ident.as_ref().map(|v| v.to_string()).as_deref() {
